@@ -534,6 +534,27 @@ class Effects:
                 if d.get("k") == "Var" and d.get("storage") in ("global", "static_member", "static_local"):
                     if not (d.get("const") or d.get("constexpr")):
                         eff.setdefault(("global", n["r"]), (F, n, "use of mutable variable with static storage", None))
+            elif k == "VarDecl":
+                d = P.d(n["r"])
+                if d.get("storage") == "static_local" and not d.get("constexpr") and n.get("c"):
+                    # a function-local static is initialised once, at the first call: if its initialiser reads
+                    # anything that is not a compile-time constant, later calls (other worlds, other arguments)
+                    # see the first call's value
+                    dyn = None
+                    for x in F.walk(n["c"][0]):
+                        xk = x.get("k")
+                        if xk == "CXXThisExpr":
+                            dyn = "this"
+                        elif xk == "DeclRefExpr":
+                            dd = P.d(x["r"])
+                            if dd.get("k") in ("Var", "ParmVar") and not (dd.get("constexpr") or (dd.get("const") and dd.get("storage") in ("global", "static_member"))):
+                                dyn = dd.get("n")
+                        elif xk in ("CallExpr", "CXXMemberCallExpr") and not d.get("constexpr"):
+                            cq = P.d(x.get("callee")).get("qn", "")
+                            if not (cq.startswith("std::numeric_limits") or EF_is_math(cq)):
+                                dyn = dyn or ("call to " + cq)
+                    if dyn:
+                        eff.setdefault(("global", n["r"]), (F, n, "function-local static initialised from run-time state (%s) at the first call" % dyn, None))
             elif k == "MemberExpr":
                 d = P.d(n["r"])
                 if d.get("k") == "Var" and not (d.get("const") or d.get("constexpr")):
@@ -645,6 +666,10 @@ class Effects:
             if base_qn not in LIB_READONLY and base_qn not in LIB_WRITERS and not is_math(base_qn):
                 # free function unknown to the tables: fine if it cannot write (all args by value/const)
                 pass
+
+
+def EF_is_math(qn):
+    return is_math(qn) or qn.startswith("std::") and is_math(qn[5:])
 
 
 def split_call(n, d):
